@@ -16,14 +16,22 @@ func isUnexpectedEOF(err error) bool { return err == io.ErrUnexpectedEOF }
 // The error constructors return a fresh *InvalidTextError: never nil and
 // never one of the sentinel errors.
 
+//@ spec isInvalidTextErr
+func isInvalidTextErr(err error) bool {
+	_, ok := err.(*InvalidTextError)
+	return ok
+}
+
 //@ func NewInvalidCharacterError
 //@ property C01 C20
+//@ ensures dyn-type: isInvalidTextErr(result)
 //@ ensures nonnil: result != nil
 //@ ensures not-eof: !isUnexpectedEOF(result)
 //@ ensures not-utf8: result != ErrInvalidUTF8
 
 //@ func NewInvalidEscapeSequenceError
 //@ property C01 C20
+//@ ensures dyn-type: isInvalidTextErr(result)
 //@ ensures nonnil: result != nil
 //@ ensures not-eof: !isUnexpectedEOF(result)
 //@ ensures not-utf8: result != ErrInvalidUTF8
